@@ -45,6 +45,10 @@ class Boom(Exception):
     pass
 
 
+class Spin(Exception):
+    """Raised by the monitor on _send_raw when the same refused frame is offered more than 500 times in one send()."""
+
+
 def make_caller(r, driver, c):
     """Describe caller c: kind and the list of items its unit(s) consist of."""
     kinds = simlib.KINDS[driver]
@@ -93,6 +97,13 @@ def run_case(driver, seed, part, i, res, forced=None):
             elif spec["kind"] == "send-cancel":
                 spec["kind"] = "send"
         t_loss = r.choice([0.003, 0.01, 0.02, 0.03, 0.045, 0.06, 0.08, 0.1, 0.15])
+    # line noise on the serial port: a lone start byte (LUBA) at some instant; a command may fail loudly because of it, nobody may
+    # be left waiting for ever with the lock held
+    noise = driver == "luba" and forced is None and r.random() < 0.25
+    t_noise = r.choice([0.001, 0.01, 0.02, 0.035, 0.05, 0.08, 0.12])
+    # a caller in keep-trying mode hands the driver a frame the gateway cannot carry: refused at once, lock untouched
+    unsupported = driver in ("tridonic", "hasseb") and forced is None and r.random() < 0.2
+    extra = {}
     # loud: send() reports the loss to its caller (CommunicationError) instead of retrying - the lock must be given up all the same
     loud = loss and r.random() < 0.35
     picker = simlib.Picker(r) if forced is None else simlib.Picker(r, prefix=forced["prefix"], default="first")
@@ -172,6 +183,39 @@ def run_case(driver, seed, part, i, res, forced=None):
             sim.world.at(sim.world.now + t_loss, lambda: sim.dev.lose(r.choice(["eof", "oserror"])))
             sim.world.at(sim.world.now + t_loss + 0.3, sim.dev.restore)
         tasks = []
+        if noise:
+            sim.world.at(sim.world.now + t_noise, lambda: sim.dev.send_whole(0, b"\x59"))
+            res.hit("noise_runs")
+        if unsupported:
+            from dali import command as _command, frame as _frame
+            import dali.device.general as _dg
+            from dali import address as _A
+            bad = _dg.IdentifyDevice(_A.DeviceShort(1)) if driver == "hasseb" else _command.Command(_frame.ForwardFrame(25, 1))
+
+            # monitor on the driver's own transmit routine: the same refused frame offered again and again without the caller
+            # ever yielding is a busy loop the virtual clock cannot see
+            orig_raw = sim.driver._send_raw
+            tries = [0]
+
+            async def counted(cmd, *a, **kw):
+                if cmd is bad:
+                    tries[0] += 1
+                    if tries[0] > 500:
+                        raise Spin()
+                return await orig_raw(cmd, *a, **kw)
+            sim.driver._send_raw = counted
+
+            async def refused():
+                await asyncio.sleep(r.choice([0, 0.002, 0.02]))
+                try:
+                    await sim.driver.send(bad, exceptions=False)
+                    extra["unsupported"] = "returned"
+                except Spin:
+                    extra["unsupported"] = "spin"
+                except Exception as e:
+                    extra["unsupported"] = type(e).__name__
+            tasks.append(asyncio.ensure_future(refused()))
+            res.hit("unsupported_in_keep_trying_mode")
         for c, spec in enumerate(callers):
             t = vloop.CountingTask(body(c, spec), loop=asyncio.get_running_loop(), cancel_at=spec["cancel_at"])
             if spec["cancel_time"] is not None:
@@ -184,6 +228,8 @@ def run_case(driver, seed, part, i, res, forced=None):
                 return "callers-not-finished-after-reconnect"
         else:
             done = await asyncio.gather(*tasks, return_exceptions=True)
+        if unsupported:
+            done = done[1:]
         for c, x in enumerate(done):
             outcome[c] = x
         await asyncio.sleep(1.5)      # let the gateway finish what it has accepted
@@ -230,7 +276,12 @@ def run_case(driver, seed, part, i, res, forced=None):
             elif spec["kind"] == "seq" and not loss and outcome.get(c) == ("done", c) and len(plog) != n_prog:
                 res.violation(f"C15/{driver}/progress-items", f"caller {c}: sequence completed, {len(plog)} of {n_prog} progress items delivered", wit)
         # ---- expected per-caller streams and units (not under loss: retries legitimately repeat frames)
-        for c, spec in enumerate(callers if not loss else []):
+        if unsupported and extra.get("unsupported") != "UnsupportedFrameTypeError":
+            res.violation(f"C15/{driver}/unsupported-frame/{extra.get('unsupported')}",
+                          f"send(<frame the gateway cannot carry>, exceptions=False) "
+                          + ("offered the frame to the gateway more than 500 times without yielding (a busy loop; stopped by the monitor)" if extra.get("unsupported") == "spin"
+                             else f"ended with {extra.get('unsupported')!r}") + "; expected UnsupportedFrameTypeError at once", wit)
+        for c, spec in enumerate(callers if not (loss or noise) else []):
             in_seq = spec["kind"].startswith("seq") or spec["kind"] == "manual"
             units = []
             if spec["kind"].startswith("send"):
@@ -328,6 +379,9 @@ def run_case(driver, seed, part, i, res, forced=None):
                 key = type(x).__name__
                 if loss and key == "CommunicationError" and (callers[c]["kind"].startswith("seq") or loud):
                     res.add("loss_reported_to_caller")
+                    continue
+                if noise and key == "TimeoutError":
+                    res.add("noise_reported_to_caller")
                     continue
                 if callers[c]["cancel_at"] is None and callers[c]["cancel_time"] is None and callers[c]["badclean"] is None:
                     res.violation(f"C15/{driver}/caller-raised/{key}", f"caller {c} ({callers[c]['kind']}) raised {key}: {x}", {**wit, "caller": c, "tb": short_tb(x)})
